@@ -10,6 +10,7 @@ Both are input-dominated; the simulation contributes the server-side
 grammar, the framing observation (one call = one line, reply FIFO intact),
 segmentation and interleaving with events and other queued queries.
 """
+import pathlib
 from twisted.internet import defer
 
 from ..core import HarnessError
@@ -118,6 +119,20 @@ class Query(object):
         self.outcome = None
         self.expect = None
         self.wire = None
+
+
+class _Texty(object):
+    """an object that is not a str and whose text is `text`"""
+
+    def __init__(self, text):
+        self.text = text
+
+    def __str__(self):
+        return self.text
+
+
+class _StrSub(str):
+    pass
 
 
 class KvRun(object):
@@ -346,6 +361,13 @@ class KvRun(object):
             v = ch.pick([True, False], 'svbool')
         else:
             v = 'x' * (13 + ch.draw(190, 'svlong')) + ch.pick(['', ' y', '\\', '"'], 'svlt')
+        if ch.chance(1, 8, 'svshape'):
+            # the value is str()-ed by set_conf whatever it is: objects whose text needs quoting as much as a str does
+            sv = str(v)
+            v = ch.pick([pathlib.PurePosixPath('/srv/my onion/' + sv.replace('/', '_').replace('\x00', '')) if '\r' not in sv and '\n' not in sv else _Texty(sv),
+                         _Texty(sv), _StrSub(sv), sv.encode('utf8'), (sv, 1)], 'svshapek')
+            sim.probe('value-not-a-str')
+            return v
         if ch.chance(1, 25, 'crlf'):
             sv = str(v)
             v = sv[:len(sv) // 2] + ch.pick(['\r\n', '\n', '\r', '\r\nGETINFO version', '\r\nSIGNAL SHUTDOWN\r\n'], 'crlfv') + sv[len(sv) // 2:]
@@ -364,13 +386,13 @@ class KvRun(object):
             sim.probe('value-int')
         return v
 
-    def op_setconf(self, q):
+    def op_setconf(self, q, again=None):
         ch, sim = self.ch, self.sim
-        npairs = 1 + ch.weighted([5, 3, 2, 1, 1, 1], 'npairs')
+        npairs = 0 if again else 1 + ch.weighted([5, 3, 2, 1, 1, 1], 'npairs')
         if npairs >= 3:
             sim.probe('pairs>=3')
-        args = []
-        pairs = []
+        args = list(again[0]) if again else []
+        pairs = list(again[1]) if again else []
         for i in range(npairs):
             key = ch.pick(['SocksPort', 'Log', 'HiddenServiceDir', 'ORPort', 'ContactInfo', 'DataDirectory', '__Weird_1'], 'skey')
             if ch.chance(1, 40, 'keycrlf'):
@@ -383,6 +405,11 @@ class KvRun(object):
         q.pairs = pairs
         q.reply = Reply(250, [], 'OK')
         q.expect = ('setconf',)
+        if ch.chance(1, 12, 'setconf5xx'):
+            # fault: Tor rejects the SETCONF; the call fails and the lines written by the calls after it are as exact as ever
+            q.reply = Reply(552, [], "Unrecognized option: Unknown option '%s'.  Failing." % pairs[0][0][:20].replace('\r', '').replace('\n', ''))
+            q.expect = ('setconf-rejected',)
+            sim.fault('tor-rejects-setconf')
         sim.log('set_conf', q.idx, repr(pairs)[:200])
         q.wire_seen = None
         self.by_wire.append(q)
@@ -395,6 +422,12 @@ class KvRun(object):
             q.expect = ('refused',)
             self.refused += 1
             sim.log('refused', q.idx)
+            if again is None and ch.chance(1, 2, 'retryrefused'):
+                # the caller tries the very same call again: it is refused again (or written as one exact line)
+                sim.probe('refused-call-repeated')
+                q2 = Query(len(self.queries), None)
+                self.queries.append(q2)
+                self.op_setconf(q2, again=(args, pairs))
 
     # ------------------------------------------------------------------ server
     def handler(self, peer, line):
@@ -456,6 +489,8 @@ class KvRun(object):
                 sim.fail('C13.rejected-query-gave-values', '%s %r: Tor answered %r, the result is %r' % (
                     q.kind, q.wire, q.reply.describe(), q.outcome))
             return
+        if q.expect[0] == 'setconf-rejected':
+            return      # (what the call reports is C01's subject, not C12's)
         if q.expect[0] == 'setconf':
             if q.outcome[0] != 'ok':
                 sim.fail('C12.call-failed', 'set_conf%r failed with %r although Tor accepted the line' % (q.pairs, q.outcome))
